@@ -1529,7 +1529,9 @@ func (g *verifPlGen) malformedBatch(R, P, S uint64) []string {
 		return []string{fmt.Sprintf("ck %d %d %d %d", r, p, s, rg.Intn(2))}
 	case 10:
 		if rg.Chance(20) {
-			return []string{fmt.Sprintf("ri %d", r)}
+			// round interruptions only move forward (the demux emits one when ledger.NextRound() > player.Round); a backwards one
+			// would resurrect rounds that encode deliberately does not persist
+			return []string{fmt.Sprintf("ri %d", R+1+uint64(rg.Intn(4)))}
 		}
 		return g.quorumLines(r, p, s, v, 0)
 	default:
